@@ -5,6 +5,7 @@ import (
 	"bytes"
 	"errors"
 	"fmt"
+	"math/big"
 
 	"github.com/amzn/ion-go/ion"
 
@@ -156,3 +157,5 @@ func diffKey(d string) string {
 	}
 	return d
 }
+
+func bigOf(i int64) *big.Int { return big.NewInt(i) }
